@@ -1,11 +1,13 @@
 SPECIFICATION Spec
 CONSTANTS
-  Mode = "terms"
-  L = 4
+  Mode = "minimize"
+  MaxSegs = 3
+  MaxLen = 2
+  Slack = 2
+  N = 5
+  MaxRegs = 2
   Batch = 50
   Stride = 1
   Offset = 0
-  MaxTok = 3
-  Devs = {"RgPt", "BwRev", "BwOrigin", "WrapSlice"}
-INVARIANT DesignOK
+
 CHECK_DEADLOCK FALSE
